@@ -54,4 +54,15 @@ CHECKS = {
         "budget_s": {"quick": 600, "thorough": 3000},
         "selftest": True,
     },
+    "C14": {
+        "pkg": "./chainimport",
+        "test": "TestVFXC14",
+        "overlay": ENGINE + ["internal/verifmemdb/memdb.go", "internal/verifhfs", "internal/verifchain", "chainimport/zz_vfx_c14_test.go"],
+        "shards": {"quick": 16, "thorough": 16},
+        "budget_s": {"quick": 200, "thorough": 3000},
+        "level": "model_checking",
+        "rule": "exhaustive product: target block tip 0-4 x filter lag 0-2 x agreeing/forked target chain x file start 0-4 x file length 1-4 x write batch size {default,1,2,3} x corruption {none, broken link, bad proof of work, wrong bits (each at every file position), wrong network magic, truncated file, filter count mismatch, filter start mismatch}; in the fault run every durable step of the stores additionally answers with every fault kind (<=1).",
+        "bounds": {"quick": "chains of 7 mined regtest headers; <=1 injected fault", "thorough": "same product; <=1 injected fault"},
+        "assumptions": ["regtest parameters (no retargeting)", "filter headers are synthetic (the importer cannot validate them beyond checkpoints)", "in-memory walletdb; real files on tmpfs"],
+    },
 }
